@@ -70,10 +70,13 @@ const (
 
 // Item is one scripted issuer reply. A/B are offsets (ns) of NotBefore/NotAfter from the clock value
 // at the time of the request.
+// Err names the error VALUE returned (errkinds.go; "" = a plain error): by the issuer for kFail, by the
+// trust-anchor source for kAnchorErr.
 type Item struct {
 	Kind string `json:"k"`
 	A    int64  `json:"a,omitempty"`
 	B    int64  `json:"b,omitempty"`
+	Err  string `json:"e,omitempty"`
 }
 
 // reqRec is what the issuer saw and answered for one request.
@@ -89,6 +92,13 @@ type reqRec struct {
 	// state left by all earlier fetches).
 	Anchors  int       // anchors version current when the fetch returned (when the file set is written)
 	Answered time.Time // injected clock when the issuer answered (zero: still in flight)
+	// ErrKind / ErrIs: for a scripted failure, the kind of the error value returned and what
+	// errors.Is(err, context.Canceled) / errors.Is(err, context.DeadlineExceeded) say about THAT value;
+	// CtxAlive: the ctx handed to the fetch (Run's ctx) was not done when the error was returned.
+	ErrKind  string
+	ErrIs    [2]bool
+	ErrText  string
+	CtxAlive bool
 }
 
 type issuer struct {
@@ -106,8 +116,10 @@ type issuer struct {
 	onReq func(idx int)
 	// onAnswer is called (outside mu) when the reply item of request idx is known, before it is returned.
 	onAnswer func(idx int, kind string)
-	// taFailNext: the trust anchor source fails on its next call (set by kAnchorErr).
+	// taFailNext: the trust anchor source fails on its next call (set by kAnchorErr), with the error
+	// kind taErrKind.
 	taFailNext bool
+	taErrKind  string
 }
 
 func (is *issuer) fn(ctx context.Context, csrDER []byte) ([]*x509.Certificate, error) {
@@ -164,8 +176,20 @@ func (is *issuer) fn(ctx context.Context, csrDER []byte) ([]*x509.Certificate, e
 	}
 	switch it.Kind {
 	case kFail:
+		// the error value is built first (an issuer that blocks until its own child context expires
+		// does so here, in real time; the fake clock does not move meanwhile)
+		ferr := makeErr(it.Err, ctx)
+		is.mu.Lock()
+		is.reqs[idx].ErrKind = it.Err
+		if it.Err == "" {
+			is.reqs[idx].ErrKind = "plain"
+		}
+		is.reqs[idx].ErrIs = [2]bool{errors.Is(ferr, context.Canceled), errors.Is(ferr, context.DeadlineExceeded)}
+		is.reqs[idx].ErrText = ferr.Error()
+		is.reqs[idx].CtxAlive = ctx.Err() == nil
+		is.mu.Unlock()
 		finish(false, time.Time{}, time.Time{})
-		return nil, errors.New("scripted issuer failure")
+		return nil, ferr
 	case kEmpty:
 		finish(false, time.Time{}, time.Time{})
 		return nil, nil
@@ -197,6 +221,8 @@ func (is *issuer) fn(ctx context.Context, csrDER []byte) ([]*x509.Certificate, e
 	if it.Kind == kAnchorErr {
 		is.mu.Lock()
 		is.taFailNext = true
+		is.taErrKind = it.Err
+		is.reqs[idx].ErrKind = "ta:" + it.Err
 		is.mu.Unlock()
 	}
 	finish(it.Kind == kOK || it.Kind == kWriteErr, leaf.NotBefore, leaf.NotAfter)
@@ -225,17 +251,27 @@ func (t *fakeTA) set(v int) {
 
 func anchorsBytes(v int) []byte { return []byte(fmt.Sprintf("-----FAKE ANCHORS v%d-----\n", v)) }
 
-func (t *fakeTA) CurrentTrustAnchors(context.Context) ([]byte, error) {
+func (t *fakeTA) CurrentTrustAnchors(ctx context.Context) ([]byte, error) {
 	t.is.mu.Lock()
 	fail := t.is.taFailNext
+	kind := t.is.taErrKind
 	t.is.taFailNext = false
 	t.is.mu.Unlock()
+	if fail {
+		var ferr error
+		if kind == "" {
+			ferr = errors.New("scripted trust anchor failure")
+		} else {
+			ferr = makeErr(kind, ctx)
+		}
+		t.mu.Lock()
+		t.calls++
+		t.mu.Unlock()
+		return nil, ferr
+	}
 	t.mu.Lock()
 	defer t.mu.Unlock()
 	t.calls++
-	if fail {
-		return nil, errors.New("scripted trust anchor failure")
-	}
 	return anchorsBytes(t.version), nil
 }
 func (t *fakeTA) GetX509BundleForTrustDomain(spiffeid.TrustDomain) (*x509bundle.Bundle, error) {
